@@ -495,6 +495,37 @@ theorem dict_case (hd : defsInSubset defs = true) (g : Nat) (ih : IHle st o re d
       simp only [Schema.isDisc, Bool.false_eq_true, if_false]
       exact ih g (Nat.le_refl _) _ .plain _ kv.2 hsub hvx
 
+/-- a nullable free-form / map object: `Optional[Dict[str, Any]]` (in a root model for a document / definition)
+rejects neither null nor any object -/
+theorem ndict_case (g : Nat) (ctx : Ctx) (value : Schema) (f : Nat) (v : Json)
+    (hv : validJ re (f + 1) defs (.ndict value) v = true) :
+    acceptsTy st re (g + 1) (trDefs st o defs) (tr st o ctx (.ndict value)) v ≠ .reject := by
+  have core : ∀ g', acceptsTy st re g' (trDefs st o defs) (.opt (.dict .any)) v ≠ .reject := by
+    intro g'
+    cases g' with
+    | zero => simp [acceptsTy]
+    | succ g' =>
+      cases v with
+      | null => simp [acceptsTy, Json.isNull]
+      | obj kvs =>
+        simp only [acceptsTy, Json.isNull, Bool.false_eq_true, if_false]
+        cases g' with
+        | zero => simp [acceptsTy]
+        | succ g'' =>
+          simp only [acceptsTy]
+          rw [all_ne_reject]
+          intro t ht
+          simp only [List.mem_map] at ht
+          obtain ⟨kv, _, rfl⟩ := ht
+          cases g'' <;> simp [acceptsTy]
+      | _ => simp [validJ] at hv
+  cases ctx with
+  | top =>
+    simp only [tr, acceptsTy]
+    exact and_ne_reject.mpr ⟨core g, by simp [checkCons_empty]⟩
+  | plain => simp only [tr]; exact core (g + 1)
+  | item phc => simp only [tr]; exact core (g + 1)
+
 theorem ref_case (hd : defsInSubset defs = true) (g : Nat) (ih : IHle st o re defs g) (ctx : Ctx)
     (n : List Char) (f : Nat) (v : Json)
     (hv : validJ re (f + 1) defs (.ref n) v = true) :
@@ -579,6 +610,7 @@ theorem valid_accepted_all (h : TableOK st) (hd : defsInSubset defs = true) :
         | dict value =>
           simp only [Schema.inSubset] at hsub
           exact dict_case st o re defs hd g ih ctx value f v hsub hv
+        | ndict value => exact ndict_case st o re defs g ctx value f v hv
         | ref n => exact ref_case st o re defs hd g ih ctx n f v hv
         | anyOf alts =>
           simp only [Schema.inSubset] at hsub
